@@ -1399,7 +1399,7 @@ func directedJobs(prop, tier string, seed int64) []job {
 	if thorough || serves("C20") {
 		add("busy-block", func(a *App, mon *Mon) *Run { runBusyBlock(a, mon, seed, 260); return mon.run })
 	}
-	if thorough || serves("C02", "C08", "C12", "C15", "C16", "C17") {
+	if thorough || serves("C02", "C08", "C12", "C15", "C16", "C17", "C11", "C18", "C01", "C06", "C10") {
 		add("crowd", func(a *App, mon *Mon) *Run { runCrowd(a, mon, seed, 135, 105); return mon.run })
 	}
 	for v := 0; v < q(2, 4); v++ {
